@@ -95,22 +95,23 @@ class Contract:
         return self.props
 
 
-SPEC_FUNCS = {"prev", "old", "implies", "iff", "forall", "exists", "pre_loop", "is_fresh", "unchanged", "typed", "ite", "alive_before", "same_field"}
+SPEC_FUNCS = {"pre_iter", "prev", "old", "implies", "iff", "forall", "exists", "pre_loop", "is_fresh", "unchanged", "typed", "ite", "alive_before", "same_field"}
 
 
 class SpecCtx:
-    def __init__(self, pre, lets, loop_entry=None, names=(), prev=None):
+    def __init__(self, pre, lets, loop_entry=None, names=(), prev=None, iter_start=None):
         self.pre, self.lets, self.loop_entry = pre, lets, loop_entry
         self.names = set(names)
         self.prev = prev
+        self.iter_start = iter_start
 
 
 def _spec_call(engine, n, st):
     """evaluation of the specification-only functions; returns a generator like Engine.eval"""
     ctx = engine.spec_ctx[-1]
     name = n.func.id
-    if name in ("old", "pre_loop", "prev"):
-        base = ctx.pre if name == "old" else (ctx.loop_entry if name == "pre_loop" else ctx.prev)
+    if name in ("old", "pre_loop", "prev", "pre_iter"):
+        base = {"old": ctx.pre, "pre_loop": ctx.loop_entry, "prev": ctx.prev, "pre_iter": ctx.iter_start}[name]
         if base is None:
             raise OutsideSubset(f"{name}() without a {name} state")
         env = dict(base.env)
@@ -229,10 +230,10 @@ def _spec_state(engine, st, extra, ctx):
     return st.copy(env=env)
 
 
-def spec_bool(engine, text, st, extra=None, loop_entry=None, ctx=None, prev=None):
+def spec_bool(engine, text, st, extra=None, loop_entry=None, ctx=None, prev=None, iter_start=None):
     """(z3 Bool, state-with-new-facts) for a specification clause evaluated in st"""
     ctx = ctx or engine.fn_ctx
-    c2 = SpecCtx(ctx.pre, ctx.lets, loop_entry or ctx.loop_entry, ctx.names, prev=prev)
+    c2 = SpecCtx(ctx.pre, ctx.lets, loop_entry or ctx.loop_entry, ctx.names, prev=prev, iter_start=iter_start or ctx.iter_start)
     engine.spec_ctx.append(c2)
     try:
         s = _spec_state(engine, st, extra, c2)
